@@ -25,6 +25,7 @@ package checks
 // op and shrunk (delta debugging against the real engine, same deviation kind) before it is reported.
 
 import (
+	"errors"
 	"crypto/sha1"
 	"encoding/binary"
 	"encoding/hex"
@@ -203,6 +204,7 @@ type c13Eng struct {
 	bpm   *buffer.BufferPoolManager
 	path  string
 	kind  string
+	fault *c13FaultDisk // fails the next page read when armed
 	mu    *sync.Mutex   // the pool's mutex (through reflection), nil if unavailable
 	table reflect.Value // the pool's page table (through reflection), invalid if unavailable
 }
@@ -228,6 +230,8 @@ func c13NewEng(env *core.Env, c *C13Case) *c13Eng {
 		// deallocate and re-use the pages and buffers they work on
 		e.dm = &c13SlowDisk{DiskManager: e.dm, delay: time.Duration(200+c.GoSeed%1800) * time.Microsecond}
 	}
+	e.fault = &c13FaultDisk{DiskManager: e.dm}
+	e.dm = e.fault
 	lm := recovery.NewLogManager(&e.dm)
 	e.bpm = buffer.NewBufferPoolManager(uint32(c.Pool), e.dm, lm)
 	func() {
@@ -241,6 +245,21 @@ func c13NewEng(env *core.Env, c *C13Case) *c13Eng {
 		}
 	}()
 	return e
+}
+
+// c13FaultDisk fails ONE page read when armed (a transient device error); inert otherwise.
+type c13FaultDisk struct {
+	disk.DiskManager
+	failNextRead atomic.Bool
+	failed       atomic.Int64
+}
+
+func (d *c13FaultDisk) ReadPage(id types.PageID, b []byte) error {
+	if d.failNextRead.CompareAndSwap(true, false) {
+		d.failed.Add(1)
+		return errors.New("injected read error")
+	}
+	return d.DiskManager.ReadPage(id, b)
 }
 
 // c13SlowDisk delays every page write (a slow device).
@@ -791,6 +810,40 @@ func (s *c13State) step(op string) (enabled bool) {
 			s.kill(h)
 		}
 		h.live = false
+	case "fetchfail": // FetchPage of a live, unpinned, non-resident page whose read fails once: nil is the only allowed answer, and the pool stays whole
+		if h == nil || !h.live || len(h.pins) != 0 || !s.canFrame() {
+			return false
+		}
+		if !dry {
+			if s.resident(h.pid) {
+				return false
+			}
+			s.eng.fault.failNextRead.Store(true)
+			var pg *page.Page
+			ok := s.guarded("FetchPage with a failing read", func() { pg = s.eng.bpm.FetchPage(types.PageID(h.pid)) })
+			armed := s.eng.fault.failNextRead.Swap(false)
+			if !ok {
+				return true
+			}
+			s.afterCall(fmt.Sprintf("FetchPage(%d) whose page read failed (returned nil=%v)", h.pid, pg == nil), pg == nil)
+			if s.viol != nil {
+				return true
+			}
+			if armed {
+				// the pool did not read at all: the page was resident after all (not observable) - treat as an ordinary fetch + unpin
+				if pg != nil {
+					s.compare("readback", fmt.Sprintf("FetchPage(%d)", h.pid), h, s.pageBytes(pg))
+					s.eng.bpm.UnpinPage(types.PageID(h.pid), false)
+				}
+				return true
+			}
+			s.add("fetches_with_a_failed_read", 1)
+			if pg != nil {
+				s.violate("readback", "FetchPage(%d) returned a page although the device could not read it (content cannot be the stored bytes)", h.pid)
+				return true
+			}
+		}
+		s.tags["read-error"] = true
 	case "fetchdead":
 		if h == nil || h.live || h.pins[u] != nil || !s.canFrame() {
 			return false
@@ -1025,6 +1078,30 @@ func (s *c13State) finish() {
 			return
 		}
 		s.add("final_pages_fetched", 1)
+	}
+	// capacity: nothing is pinned now, so as many distinct live pages as the pool has frames can be pinned at once
+	// (whatever an earlier refused call kept - a frame that went neither back to the free list nor to the replacer - is missing here)
+	var held []int
+	for _, id := range hids {
+		if len(held) >= s.c.Pool {
+			break
+		}
+		if h := s.h[id]; h.live {
+			s.step(fmt.Sprintf("0 fetch %d", id))
+			if s.viol != nil {
+				return
+			}
+			held = append(held, id)
+		}
+	}
+	if len(held) == s.c.Pool {
+		s.add("final_capacity_audits_with_every_frame_pinned", 1)
+	}
+	for _, id := range held {
+		s.step(fmt.Sprintf("0 unpin %d c", id))
+		if s.viol != nil {
+			return
+		}
 	}
 	if !s.guarded("FlushAllPages", func() { s.eng.bpm.FlushAllPages() }) {
 		return
@@ -1271,6 +1348,11 @@ func c13Gen(env *core.Env, idx int) *C13Case {
 	target := pool + 1 + rng.Intn(pool*2+3)
 	maxHold := 1 + rng.Intn(3)
 	withFetchDead := rng.Intn(2) == 0 // hostile classes: only half of the cases fetch deallocated ids
+	readErrors := rng.Intn(4) == 0 // a quarter of the scripts meet transient read errors
+	fetchDeadW := 3
+	if withFetchDead && rng.Intn(3) == 0 {
+		fetchDeadW = 40 // many fetches of deallocated ids in one script: whatever a refused fetch keeps (a frame, a lock) adds up
+	}
 	s := c13NewState(c, nil, nil)
 	nextH := 0
 	type cand struct {
@@ -1386,10 +1468,16 @@ func c13Gen(env *core.Env, idx int) *C13Case {
 				}
 			}
 		}
+		if canFrame && len(liveH) > 0 && len(holds) < maxHold && readErrors {
+			id := liveH[rng.Intn(len(liveH))]
+			if len(s.h[id].pins) == 0 {
+				cs = append(cs, cand{4, fmt.Sprintf("%d fetchfail %d", u, id)})
+			}
+		}
 		if withFetchDead && strings.HasPrefix(class, "hostile") && len(deadH) > 0 && canFrame && len(holds) < maxHold {
 			id := deadH[rng.Intn(len(deadH))]
 			if s.h[id].pins[u] == nil {
-				cs = append(cs, cand{3, fmt.Sprintf("%d fetchdead %d", u, id)})
+				cs = append(cs, cand{fetchDeadW, fmt.Sprintf("%d fetchdead %d", u, id)})
 			}
 		}
 		if len(cs) == 0 {
